@@ -163,7 +163,7 @@ def run(ck):
             continue
         seen.add(key)
         ck.report(dict(input=cc.case_line(cases[i]), kind=cases[i]["kind"], probe=cases[i].get("probe")), oracle=key, key="contact:" + key, what=what)
-    if not fails:
+    if not ck.violations:
         if not ok:
             ck.report(dict(log=ck.proof_res["log"][-3000:]), unchecked="Properties_C07.vo", what="proof obligations of C07 no longer check")
         if broken:
